@@ -323,4 +323,18 @@ def _coverage_sorted(data):
         return [("C07.loads", f"layout tables: {type(e).__name__}: {e}")]
     finally:
         ot.Coverage.postRead = orig
-    return [("C07.coverage-sorted", found[0])] if found else []
+    # PairPos format 1: the records of a PairSet are ordered by the glyph id of the second glyph (consumers search them)
+    pairs = []
+    try:
+        if "GPOS" in f and f["GPOS"].table.LookupList:
+            for li, lk in enumerate(f["GPOS"].table.LookupList.Lookup):
+                for st in lk.SubTable:
+                    st = getattr(st, "ExtSubTable", st)
+                    if type(st).__name__ == "PairPos" and st.Format == 1:
+                        for ps in st.PairSet:
+                            ids = [f.getGlyphID(r.SecondGlyph) for r in ps.PairValueRecord]
+                            if any(b <= a for a, b in zip(ids, ids[1:])):
+                                pairs.append(f"GPOS lookup {li}: a PairSet lists second glyph ids {ids}")
+    except Exception as e:
+        return [("C07.loads", f"GPOS pair sets: {type(e).__name__}: {e}")]
+    return ([("C07.coverage-sorted", found[0])] if found else []) + ([("C07.pairset-sorted", pairs[0])] if pairs else [])
